@@ -213,3 +213,33 @@ Definition judge_go_ret (e : env) (q : query) (scan_count : nat) (ret_is_model :
     b2n (if Nat.ltb n 2 then true
          else if ret_is_model then fields_match c 0 fields (q_columns q) true && list_eqb String.eqb (map fst fields) (map qc_name (q_columns q))
          else negb (is_whole_table c (q_columns q))) ].
+
+(** ** C07: the expanded statement returns the same row, column by column, as
+    the statement with stars: same names, same source columns *)
+Definition src_eqb (a b : option (string * string * column)) : bool :=
+  match a, b with
+  | Some (s1, t1, c1), Some (s2, t2, c2) => String.eqb s1 s2 && String.eqb t1 t2 && String.eqb (col_name c1) (col_name c2)
+  | None, None => true
+  | _, _ => false
+  end.
+Definition rows_equal (a b : list sccol) : bool :=
+  forall2b (fun x y => String.eqb (sc_name x) (sc_name y) && src_eqb (sc_src x) (sc_src y)) a b.
+
+Definition has_star (raw : node) : bool :=
+  existsb (fun t => let v := kid "Val" t in is_kind "ColumnRef" v && has_star_ref v) (search (is_kind "ResTarget") raw).
+
+Definition judge_c07 (e : env) (raw : node) (src : string) (sql_raw : node) (impl : result (option query)) : list N :=
+  let c := env_cat e in
+  let holds :=
+    match impl with
+    | Ok (Some q) =>
+        if has_star raw && spec_ok c raw then
+          match pg_describe c (stmt_of raw), pg_describe c (stmt_of sql_raw) with
+          | POk a, POk b => rows_equal a b && negb (has_star sql_raw)
+          | _, _ => false
+          end
+        else true
+    | _ => true
+    end in
+  [b2n (wf_order raw) + 2 * b2n (cte_alias_shared raw) + 4 * b2n (negb (has_star raw)) + 8 * b2n (spec_ok c raw);
+   c02_class_e e raw; b2n holds; outcome_diff (parse_query e raw src false) impl].
